@@ -63,6 +63,7 @@ specs["C04"] = {"runs": [ls(c, Q, q, C04own) for c in range(5)] + [ls(c, T, t, C
     run("parser:Harness_parse_generated", Q, {"R": 2, "E": 2, "n": 2, "m": 2}, owned=C04own, cover=["parsed"]),
     run("parser:Harness_parse_generated", T, {"R": 2, "E": 2, "n": 3, "m": 2, "layouts": 1}, owned=C04own, cover=["parsed"]),
     run("parser:Harness_parse_long_ok", QT, {}, owned=C04own, cover=["long"], max_steps=60000000, note="concrete supplement: a comment, note, entry name or heading of 4094..8193 and 65000 bytes is one line (sizes around the block sizes of buffered readers)"),
+    run("parser:Harness_parse_reentrant", QT, {}, owned=C04own, cover=["parsed"], note="a parse started from inside the callback of another parse does not disturb the outer one (no package-level parser state)"),
     run("parser:Harness_parse_file_equals_stream", QT, {}, owned=C04own, cover=["parsed"], note="ParseFileCallback on a file = ParseStreamCallback on its content: empty, one byte, two bytes, no final newline, byte order mark (virtual file system)"),
     run("parser:Harness_parse_numbers_concrete", QT, {}, cover=["parsed"], note="concrete supplement: 36 number tokens through the parser vs strconv.ParseFloat, bit for bit (the symbolic runs treat ParseFloat as uninterpreted)"),
  ], "assumptions": [PF + ". The claim is that exactly the number token reaches ParseFloat and its result reaches the entry.",
@@ -295,6 +296,7 @@ specs["C18"] = {"runs": [
     run("parser:Harness_channel_protocol", QT, {"lines": 2, "configs": 1}, cover=["observed"], note="under the default configuration, the zero value and another comment character, on input with a line starting with #"),
     run("parser:Harness_channel_protocol", T, {"lines": 4}, cover=["observed"]),
     run("parser:Harness_channel_read_failure", QT, {}, cover=["observed"], note="reader failing at every offset: the error reaches the consumer"),
+    run("parser:Harness_channel_two_parsers", QT, {}, cover=["observed"], note="a consumer that runs the callback parser on another stream after every record it receives (its reaction runs at the producer's send): the channel parser's records are its own"),
     run("parser:Harness_channel_parse_file", QT, {}, cover=["observed"], note="Parser.ParseFile vs ParseFileCallback on an existing file, a malformed file, a missing file and a directory (virtual file system)"),
  ], "assumptions": ["schedule reduction: the producer (Parser.ParseStream) performs a deterministic sequence of blocking sends on unbuffered channels and contains no receive, select or go statement (the executor aborts as unsupported if it meets one); with one producer at most one send is pending, so every schedule shows the consumer the longest prefix of the send sequence its policy accepts. The reduction is an argument; the send sequence itself is computed symbolically for all inputs"],
  "outside_claim": ["scheduling jitter and the race detector as such", "select statements other than a non-blocking select of sends (every outcome of which is explored)"], "stubs": [REALSTD, FMT, "os.Open/(*os.File).Read: virtual file system"]}
